@@ -7,10 +7,22 @@ def _events(case):
     return w[0], w[1:]
 
 
+def _binary(case):
+    """T<k>b …: the history is run against the real binary (one process per invocation, kills are SIGKILLs)"""
+    return case.split(" ", 1)[0].endswith("b")
+
+
 class Run(Engine):
     name = "run"
     # the observables of every invocation of the history: reported results, Runner calls, error class, cache file
     SECT = ["RES", "EXEC", "ERR", "CACHE"]
+
+    def __init__(self):
+        super().__init__()
+        # counted in histogram() (called once per case of the main run), reported by rule()
+        self.n_binary = 0
+        self.n_binary_killed = 0
+        self.n_binary_invocations = 0
 
     def compare_sections(self, prop):
         return self.SECT
@@ -65,8 +77,19 @@ class Run(Engine):
     def histogram(self, prop, rec):
         sec = _sections(rec[1])
         tpl, evs = _events(rec[0])
-        out = ["template:" + tpl]
+        out = ["template:" + tpl.rstrip("b")]
         runs = [e for e in evs if e.startswith("r.")]
+        binary = _binary(rec[0])
+        out.append("mode:binary" if binary else "mode:in-process")
+        if binary:
+            kills = [x.strip() for x in sec.get("CR", "").split("/") if x.strip() not in ("-", "")]
+            self.n_binary += 1
+            self.n_binary_invocations += len(runs)
+            if kills:
+                self.n_binary_killed += 1
+                out.append("binary-history-with-SIGKILL")
+            for x in kills:
+                out.append("binary-kill:" + {"K": "during-command", "B": "before-write", "T": "torn-write", "A": "after-write"}.get(x[0], "?"))
         out.append("events:" + ("1-4" if len(evs) <= 4 else "5-8" if len(evs) <= 8 else "9+"))
         out.append("invocations:" + (str(len(runs)) if len(runs) <= 4 else "5+"))
         res = sec.get("RES", "")
@@ -93,11 +116,23 @@ class Run(Engine):
 
     def rule(self, prop):
         base = ("histories over {write v1/v2, delete, remove .spok, toggle a task's failure, run a subset of tasks ± --force, "
-                "kill at a crash point} on 7 spokfile templates (1-3 tasks; literal, glob, task dependencies, a dependency-less "
+                "kill at a crash point} on 9 spokfile templates (1-3 tasks; literal, glob, task dependencies, a dependency-less "
                 "task, shared files, a file matched twice, a directory among the glob matches, a missing literal); corpus "
                 "(D1 witnesses) + ALL histories of depth 4 ending in a run on two or three templates (depth 5 in thorough) + "
                 "kill-point enumeration (every VerifPoint before/after every cache write, torn writes, Runner panics) + seeded "
                 "random histories of depth ≤ 12; ")
+        if prop in ("C10", "C01"):
+            base += ("BINARY MODE (cases `T<k>b`, same line protocol, same judges and comparison): the same kind of history with "
+                     "every invocation a process of the real binary $VERIF_BUILD/spok (--debug --json, sandbox HOME, PATH holding "
+                     "only kill, NO_COLOR=1), kills being real SIGKILLs (`kill -9 $$` from inside the j-th command; "
+                     "SPOK_VERIF_CRASH=k ± SPOK_VERIF_TEAR=n at the dump:before/dump:after points), task failure by a flag file "
+                     "outside the project, EXEC from a side-effect log, ERR from the exit status (+ the 'Could not load spok cache' "
+                     "prefix), the cache file read back: on templates 1 and 2 `[run] edit [run killed at K1 K2 / every point k "
+                     "± torn 0, 9, half, full] revert [run]` ± --force and ± only one task requested, the same killed run after "
+                     "cache removal and in a fresh project (C10 thorough: all of them; otherwise a seed-dependent stride), plus "
+                     "seeded random binary histories of ≤ 8 events over all templates; "
+                     f"in this check {self.n_binary} binary-mode histories ran ({self.n_binary_invocations} processes), "
+                     f"{self.n_binary_killed} of them with ≥ 1 real SIGKILL; ")
         return base + {
             "C01": "non-trivial = distinct history with ≥ 1 reported skip and ≥ 1 edit",
             "C02": "non-trivial = distinct history with ≥ 1 reported skip and ≥ 1 edit (crash-free histories are judged, others are na)",
@@ -114,14 +149,17 @@ RUN_MODELLED = [
     "SHA-256 / hash.Concurrent is a parameter `digest` of the model (never assumed injective: conclusions are '… or an explicit collision'); the oracle instantiates it with an injective code of the item list and the harness maps the real digests it computes with hash.New() to the same codes",
     "modelled: run order (dag.Sort) is observed and handed to the model as an oracle argument; glob expansion is compared against reference code of the harness through the digests found in .spok/cache.json",
 ]
+RUN_BINARY = [
+    "binary mode (C10, sample for C01): SIGKILL of the real process; what differs from the in-process runs is observed, not modelled: an invocation with a failing command prints no JSON document (exit status 1, 'Command … exited with status n'), so for those invocations the skipped tasks are inferred (in the closure, not in the side-effect log) and judged like reported skips; the run order of a killed invocation is read from the --debug log on stderr; torn writes are the n-byte prefixes written by the verif hook of the binary itself (SPOK_VERIF_TEAR), not a write(2) interrupted by the kernel",
+]
 RUN_ASSUME = [
     "one spok process per project at a time; commands do not modify their own dependencies; the spokfile is not edited within a history",
     "a Runner error (as opposed to a non-zero exit status) is not part of the modelled universe",
 ]
 
 PROPS = {
-    "C01": {"engine": "run", "modelled": RUN_MODELLED, "assumptions": RUN_ASSUME},
+    "C01": {"engine": "run", "modelled": RUN_MODELLED + RUN_BINARY, "assumptions": RUN_ASSUME},
     "C02": {"engine": "run", "modelled": RUN_MODELLED, "assumptions": RUN_ASSUME},
-    "C10": {"engine": "run", "modelled": RUN_MODELLED, "assumptions": RUN_ASSUME},
+    "C10": {"engine": "run", "modelled": RUN_MODELLED + RUN_BINARY, "assumptions": RUN_ASSUME},
     "C14": {"engine": "run", "modelled": RUN_MODELLED, "assumptions": RUN_ASSUME},
 }
